@@ -121,15 +121,15 @@ theorem qa_same {s s' : State} (ho : s'.out = s.out) : Quiet isAck s s' := by un
 
 theorem qa_ticks (cfg : Cfg) (s : State) : Quiet isAck s (ticks cfg s) := by
   unfold ticks
-  have h1 : Quiet isAck s (if cfg.timing && s.now - s.tTiming > 900 then { sendTiming cfg s with tTiming := s.now } else s) := by
+  have h1 : Quiet isAck s (if cfg.timing && s.now - s.tTiming > cfg.pTiming then { sendTiming cfg s with tTiming := s.now } else s) := by
     split
     · unfold sendTiming
       exact ((qa_same (s' := { s with counts := [], inTraffic := true }) rfl).trans
         (qa_fwd cfg _ _ (by simp [mgrFrame]))).trans (qa_same rfl)
     · exact Quiet.refl _ s
-  generalize (if cfg.timing && s.now - s.tTiming > 900 then { sendTiming cfg s with tTiming := s.now } else s) = s1 at h1
+  generalize (if cfg.timing && s.now - s.tTiming > cfg.pTiming then { sendTiming cfg s with tTiming := s.now } else s) = s1 at h1
   dsimp only
-  have h2 : Quiet isAck s1 (if s1.now - s1.tTraffic > 1000 then sendTraffic cfg s1 else s1) := by
+  have h2 : Quiet isAck s1 (if s1.now - s1.tTraffic > cfg.pTraffic then sendTraffic cfg s1 else s1) := by
     split
     · unfold sendTraffic
       refine (((qa_same (s' := { s1 with inTraffic := true }) rfl).trans (qa_log cfg 10 _)).trans
@@ -139,7 +139,7 @@ theorem qa_ticks (cfg : Cfg) (s : State) : Quiet isAck s (ticks cfg s) := by
       obtain ⟨p, _, rfl⟩ := List.mem_map.mp hf
       simp [mgrFrame, trafficBody]
     · exact Quiet.refl _ s1
-  generalize (if s1.now - s1.tTraffic > 1000 then sendTraffic cfg s1 else s1) = s2 at h2
+  generalize (if s1.now - s1.tTraffic > cfg.pTraffic then sendTraffic cfg s1 else s1) = s2 at h2
   refine (h1.trans h2).trans ?_
   split
   · unfold sendActive
